@@ -50,6 +50,7 @@ pub struct Run {
     pub seed: u64,
     pub level: Level,
     pub replay: Option<String>,
+    pub replay_key: Option<String>,
     start: Instant,
     known: Vec<(String, String, String)>, // (key, status, description)
     inner: Mutex<Inner>,
@@ -80,10 +81,28 @@ impl Run {
             }
             i += 1;
         }
-        let seed = std::env::var("VERIF_SEED")
+        let mut seed = std::env::var("VERIF_SEED")
             .ok()
             .and_then(|s| s.parse::<u64>().ok())
             .unwrap_or(1);
+        // Replay: every check is deterministic in (tier, seed), and a failing case is identified by
+        // its key; replaying = re-running under the recorded tier/seed and reporting only that key.
+        let mut replay_key = None;
+        if let Some(p) = &replay {
+            let s = std::fs::read_to_string(p).unwrap_or_else(|e| {
+                eprintln!("cannot read replay {p}: {e}");
+                std::process::exit(2)
+            });
+            let v: Value = serde_json::from_str(&s).expect("bad replay json");
+            if v["tier"].as_str() == Some("thorough") {
+                tier = Tier::Thorough;
+            } else {
+                tier = Tier::Quick;
+            }
+            seed = v["seed"].as_u64().unwrap_or(seed);
+            replay_key = v["key"].as_str().map(String::from);
+            eprintln!("replay: re-running {} tier={:?} seed={} for case key {:?}", id, tier, seed, replay_key);
+        }
         let known = load_known(id);
         super::quiet_panics();
         Run {
@@ -92,6 +111,7 @@ impl Run {
             seed,
             level,
             replay,
+            replay_key,
             start: Instant::now(),
             known,
             inner: Mutex::new(Inner {
@@ -187,6 +207,11 @@ impl Run {
     /// KNOWN-FINDING and does not affect the exit code; otherwise it is a VIOLATION with a replay
     /// file. Only the first case per key is written out.
     pub fn fail(&self, key: &str, what: &str, case: Value) {
+        if let Some(rk) = &self.replay_key {
+            if rk != key {
+                return;
+            }
+        }
         let mut g = self.inner.lock().unwrap();
         if !g.reported_keys.insert(key.to_string()) {
             return;
@@ -209,12 +234,16 @@ impl Run {
         let body = json!({
             "property": self.id,
             "key": key,
+            "tier": if self.tier == Tier::Quick { "quick" } else { "thorough" },
+            "seed": self.seed,
             "what": what,
             "case": case,
             "replay": format!("./check {} --replay {}", self.id, path),
         });
-        let _ = std::fs::create_dir_all(format!("{}/replays", VERIF_ROOT));
-        let _ = std::fs::write(&path, serde_json::to_string_pretty(&body).unwrap());
+        if self.replay.is_none() {
+            let _ = std::fs::create_dir_all(format!("{}/replays", VERIF_ROOT));
+            let _ = std::fs::write(&path, serde_json::to_string_pretty(&body).unwrap());
+        }
         println!("VIOLATION property={} replay={}", self.id, path);
         println!("  what: {}", what);
         g.violations.push((key.to_string(), what.to_string()));
